@@ -28,6 +28,8 @@ type Gen struct {
 	UP4 bool
 	// PrecBoundary: draw precedence from the boundaries of the 16-bit range (C16)
 	PrecBoundary bool
+	// PDIOrders: the IEs inside the PDI of plain PDRs come in varying order
+	PDIOrders bool
 	// Rateless: some QERs carry no rates at all (UP4 image oracle)
 	Rateless bool
 	// ModKinds: when set, Modification draws its kind among these only
@@ -229,6 +231,10 @@ func (g *Gen) Session(p *Peer, sh SessShape) *CPSession {
 			ul.UEIPAlloc, dl.UEIPAlloc = true, true
 		} else {
 			ul.UEIP, dl.UEIP = ue, ue
+		}
+		if sdf == nil && g.PDIOrders {
+			// plain PDRs: the IEs of the PDI in another order now and then
+			ul.PDIOrder, dl.PDIOrder = []int{0, 0, 0, 1, 2}[g.c(5, "pdi-order-ul")], []int{0, 0, 0, 1, 2}[g.c(5, "pdi-order-dl")]
 		}
 		s.PDRs = append(s.PDRs, ul, dl)
 	}
